@@ -4,6 +4,8 @@ from __future__ import annotations
 
 import ast
 
+from .helpers import Every  # noqa: E402
+
 from .. import terms as T
 from ..model import AnalysisError, self_attr, stmt_text, walk_no_nested
 from ..paths import unversion
@@ -63,11 +65,12 @@ def pots_resets(chk, ctx) -> None:
            'each level is measured from the previous one (starting from 0) and the previous level is updated at the end of every round of the loop')
     none = T.spec('self._pots is not None', boolean=True)
     ok_f = False
+    ok_f = Every()
     for p in ctx.paths(fi, max_paths=200000):
         ys = [e for e in p.events if e.kind == 'yield']
         cs = [unversion(c) for c in p.conds()]
         if none in cs:
-            ok_f = bool(ys) and unversion(ys[0].term) == ('self', '_pots') and ys[0].op == 'from' and p.returned
+            ok_f.see(bool(ys) and unversion(ys[0].term) == ('self', '_pots') and ys[0].op == 'from' and p.returned)
             break
     chk.ob('C01.pots', 'State.pots:frozen', ok_f, fi.loc, 'once pushing has begun the frozen pots are reported, not recomputed')
 
@@ -104,9 +107,10 @@ def collect_conditions(chk, ctx) -> None:
 def initial_deck(chk, ctx) -> None:
     fi = ctx.sfi('_setup')
     ok = False
+    ok = Every()
     for p in ctx.paths(fi):
         ws = [(e.op, unversion(e.value)) for e in p.writes() if T.root_self_attr(e.term) == 'deck_cards']
-        ok = ws[:2] == [('call:extend', ('tuple', (('self', 'deck'),))), ('call:shuffle', ())]
+        ok.see(ws[:2] == [('call:extend', ('tuple', (('self', 'deck'),))), ('call:shuffle', ())])
     chk.ob('C06.initial', 'State._setup', ok, fi.loc, 'the deck starts as exactly the cards of the configured deck, shuffled; every other card place starts empty')
 
 
@@ -248,9 +252,10 @@ def all_in_rule(chk, ctx) -> None:
            'or when somebody has no chips left on the last street; and not otherwise', got=f'missing: {missing}' if missing else 'ok')
     ai = ctx.sfi('actor_index')
     ok = False
+    ok = Every()
     for p in ctx.paths(ai):
         if p.returned and p.outcome[1] == ('const', None):
-            ok = T.spec('not self.actor_indices', boolean=True) in [unversion(c) for c in p.conds()]
+            ok.see(T.spec('not self.actor_indices', boolean=True) in [unversion(c) for c in p.conds()])
     chk.ob('C03.actor', 'State.actor_index:none', ok, ai.loc, 'there is no actor exactly when the queue of players to act is empty')
 
 
